@@ -117,6 +117,20 @@ pub fn alphabet(root_uid: bool) -> Vec<Op> {
             ops.push(Op::ChownB(s(p), None, Some(8), true, true));
         }
     }
+    // data shapes: both backends must store and split the same bytes (empty data over existing content,
+    // bare and doubled carriage returns, missing final newline, empty lines and embedded terminators in line lists)
+    for p in ["/a", "/a/ab"] {
+        for d in [&b""[..], &b"a\r\r\nb\r"[..], &b"x\n\ny"[..], &b"0123456789\n"[..]] {
+            ops.push(Op::WriteAll(s(p), d.to_vec()));
+            ops.push(Op::AppendAll(s(p), d.to_vec()));
+        }
+        for ls in [vec![], vec![s("")], vec![s("a"), s("")], vec![s("a\n")], vec![s("a\r"), s("b")], vec![s(""), s("")]] {
+            ops.push(Op::WriteLines(s(p), ls.clone()));
+            ops.push(Op::AppendLines(s(p), ls));
+        }
+        ops.push(Op::AppendLine(s(p), s("")));
+        ops.push(Op::AppendLine(s(p), s("x\n")));
+    }
     for a in &ns {
         for b in &ns {
             if a != b {
@@ -312,7 +326,7 @@ fn follow_up_queries() -> Vec<Op> {
     let mut q = vec![];
     for p in ["/a", "/a/a", "/a/ab", "/ab", "/ab/a", "/ab/ab", "/zz"] {
         let p = s(p);
-        q.extend([Op::Exists(p.clone()), Op::IsFile(p.clone()), Op::IsDir(p.clone()), Op::IsSymlink(p.clone()), Op::ReadAll(p.clone()), Op::ReadlinkAbs(p.clone()), Op::Mode(p.clone())]);
+        q.extend([Op::Exists(p.clone()), Op::IsFile(p.clone()), Op::IsDir(p.clone()), Op::IsSymlink(p.clone()), Op::ReadAll(p.clone()), Op::ReadLines(p.clone()), Op::ReadlinkAbs(p.clone()), Op::Mode(p.clone())]);
     }
     q.push(Op::AllPaths(s("/")));
     q
